@@ -1,10 +1,28 @@
 #!/bin/bash
-# run every agent seed against its property's check; print detection table
+# tools/seed_matrix.sh [prefix] [ids...]  run every seed of seeded/<prefix>-Cxx (default: agent and agent2)
+# against its property's check; print a detection table and refresh detected_by/signatures in meta.json.
 cd /verif
-for d in seeded/agent-C*; do
-  id=$(basename $d | sed 's/agent-//')
+prefixes="agent agent2"
+case "${1:-}" in agent|agent2|agent3|agent4) prefixes=$1; shift;; esac
+for pre in $prefixes; do
+for d in seeded/$pre-C*; do
+  [ -d "$d" ] || continue
+  id=$(basename $d | sed "s/$pre-//")
   [ -n "${1:-}" ] && [[ ! " $* " =~ " $id " ]] && continue
   r=$(tools/selftest.sh $d/patch.diff $id quick 2>&1)
   if echo "$r" | grep -q "exit=1"; then s=DETECTED; else s=MISSED; fi
-  echo "$id $s $(echo "$r" | grep signature | head -2 | tr '\n' ' ')"
+  sigs=$(echo "$r" | grep -o "signature: [^ ]*" | sed 's/signature: //' | grep -v "^$" | head -3)
+  echo "$pre $id $s $(echo $sigs | tr '\n' ' ')"
+  python3 - "$d" "$id" "$s" "$sigs" <<'P'
+import json,sys,os
+d,id_,s,sigs=sys.argv[1:5]
+p=d+'/meta.json'
+m=json.load(open(p)) if os.path.exists(p) else {"kind":"independent sub-agent seed","breaks":id_}
+m["confirmed"]=m.get("confirmed","tools/confirm_seed.sh: demo test passes without the change, fails with it; pinned suite (984 baseline tests) passes with it")
+m["ran"]=f"tools/selftest.sh {d}/patch.diff {id_} quick"
+m["detected_by"]=f"./check {id_} quick" if s=="DETECTED" else "MISSED"
+m["signatures"]=[x for x in sigs.split() if x]
+json.dump(m,open(p,'w'),indent=1)
+P
+done
 done
